@@ -56,7 +56,8 @@ namespace
 // Persistent worker threads (creating threads under ThreadSanitizer is expensive).  The barrier is
 // built so that the ONLY happens-before edges of a round are main -> worker (start) and
 // worker -> main (completion); in particular no edge orders one worker's list before another's:
-//   * every worker sleeps on its own mutex / condition variable, shared with the main thread only;
+//   * every worker sleeps on its own start mutex / condition variable, shared with the main thread
+//     only, and reports completion through a second, separate mutex;
 //   * after all workers of the round have been armed they are released together by one atomic flag
 //     written by the main thread alone.
 // (With a mutex shared by the workers, "worker 0 finished and went back to sleep" would
@@ -65,8 +66,8 @@ namespace
 class Workers
 {
     struct Slot {
-        std::mutex m;
-        std::condition_variable cv;
+        std::mutex ms, md; // start / completion: two mutexes, see below
+        std::condition_variable cs, cd;
         bool start = false, done = false, quit = false;
         std::thread th;
     };
@@ -78,8 +79,8 @@ class Workers
     {
         for (;;) {
             {
-                std::unique_lock<std::mutex> lk(s->m);
-                s->cv.wait(lk, [&] { return s->start || s->quit; });
+                std::unique_lock<std::mutex> lk(s->ms);
+                s->cs.wait(lk, [&] { return s->start || s->quit; });
                 if (s->quit)
                     return;
                 s->start = false;
@@ -88,9 +89,9 @@ class Workers
                 std::this_thread::yield();
             job(id);
             {
-                std::unique_lock<std::mutex> lk(s->m);
+                std::unique_lock<std::mutex> lk(s->md);
                 s->done = true;
-                s->cv.notify_all();
+                s->cd.notify_all();
             }
         }
     }
@@ -107,14 +108,17 @@ public:
         go.store(false, std::memory_order_relaxed);
         job = f;
         for (size_t i = 0; i < n; i++) {
-            std::unique_lock<std::mutex> lk(slots[i]->m);
+            std::unique_lock<std::mutex> lk(slots[i]->ms);
             slots[i]->start = true;
-            slots[i]->cv.notify_all();
+            slots[i]->cs.notify_all();
         }
         go.store(true, std::memory_order_release);
+        // From here on the main thread must not release anything a not-yet-woken worker will still
+        // acquire: it waits on the completion mutexes only (a wait on `ms` of a late worker would
+        // publish the work of the already finished workers to it).
         for (size_t i = 0; i < n; i++) {
-            std::unique_lock<std::mutex> lk(slots[i]->m);
-            slots[i]->cv.wait(lk, [&] { return slots[i]->done; });
+            std::unique_lock<std::mutex> lk(slots[i]->md);
+            slots[i]->cd.wait(lk, [&] { return slots[i]->done; });
             slots[i]->done = false;
         }
         job = nullptr;
@@ -123,9 +127,9 @@ public:
     {
         for (auto &s : slots) {
             {
-                std::unique_lock<std::mutex> lk(s->m);
+                std::unique_lock<std::mutex> lk(s->ms);
                 s->quit = true;
-                s->cv.notify_all();
+                s->cs.notify_all();
             }
             s->th.join();
         }
